@@ -2499,7 +2499,7 @@ def mini_stage(ctx: vlib.Ctx) -> None:
         ctx.broke("C", "C03/MiniEval.v", out[-1500:])
         return
     rng = vlib.Rng(ctx.seed, "mini")
-    n = ctx.n(24, 150)
+    n = ctx.n(16, 150)
     jobs, gens = [], []
     exprs: list[str] = []
     index: list[tuple[int, str, Any]] = []
